@@ -13,7 +13,10 @@ package main
 import (
 	"context"
 	"fmt"
+	"io"
 	"math/rand"
+	"net/http"
+	"net/http/httptest"
 	"net/url"
 	"reflect"
 	"strings"
@@ -76,6 +79,29 @@ func runC18(c *Ctx) {
 		tok, _ := w.keys.mint(tokSpec{Sig: "good-rsa", Aud: []string{"client-0", "client-1", "client-2"}, NonceKind: "str", Nonce: nonce, Exp: time.Now().Unix() + 3600})
 		return idpAnswer{Body: fmt.Sprintf(`{"id_token":%q,"access_token":"at","refresh_token":"rt","expires_in":3600,"token_type":"Bearer"}`, tok)}
 	}
+	// a forward proxy that records what passes through it: one filter per configuration is given it as proxy_uri
+	var proxied []string // "path|Authorization" of every request that went through the proxy
+	direct := &http.Client{Transport: &http.Transport{Proxy: nil}}
+	proxy := httptest.NewServer(http.HandlerFunc(func(rw http.ResponseWriter, r *http.Request) {
+		mu.Lock()
+		proxied = append(proxied, r.URL.Path+"|"+r.Header.Get("Authorization"))
+		mu.Unlock()
+		body, _ := io.ReadAll(r.Body)
+		out, _ := http.NewRequest(r.Method, r.URL.String(), strings.NewReader(string(body)))
+		out.Header = r.Header.Clone()
+		resp, err := direct.Do(out)
+		if err != nil {
+			rw.WriteHeader(502)
+			return
+		}
+		defer resp.Body.Close()
+		for k, v := range resp.Header {
+			rw.Header()[k] = v
+		}
+		rw.WriteHeader(resp.StatusCode)
+		_, _ = io.Copy(rw, resp.Body)
+	}))
+	defer proxy.Close()
 	mrA, err := miniredis.Run()
 	must(err)
 	defer mrA.Close()
@@ -123,7 +149,7 @@ func runC18(c *Ctx) {
 				}
 				o := &oidcv1.OIDCConfig{CallbackUri: "https://app.test/callback", ClientId: fmt.Sprintf("client-%d", i),
 					ClientSecretConfig: &oidcv1.OIDCConfig_ClientSecret{ClientSecret: fmt.Sprintf("secret-%d", i)},
-					Scopes:     []string{"openid"}, CookieNamePrefix: fmt.Sprintf("p%d", i), IdToken: &oidcv1.TokenConfig{Header: "authorization", Preamble: "Bearer"},
+					Scopes:             []string{"openid"}, CookieNamePrefix: fmt.Sprintf("p%d", i), IdToken: &oidcv1.TokenConfig{Header: "authorization", Preamble: "Bearer"},
 					AbsoluteSessionTimeout: uint32(abs), IdleSessionTimeout: uint32(idle)}
 				discovered := (ci+i+round)%2 == 0
 				if discovered { // one provider, one discovery path, the policy selected by the query
@@ -135,13 +161,16 @@ func runC18(c *Ctx) {
 				if uris[k] != "" {
 					o.RedisSessionStoreConfig = &oidcv1.RedisConfig{ServerUri: uris[k]}
 				}
+				if i == (ci+round)%len(ks) && !discovered { // this filter reaches its provider through the proxy; the others do not
+					o.ProxyUri = proxy.URL
+				}
 				oidcs = append(oidcs, o)
 				cfg.Chains = append(cfg.Chains, &configv1.FilterChain{Name: fmt.Sprintf("c%d", i),
 					Match:   &configv1.Match{Header: "x-tenant", Criteria: &configv1.Match_Equality{Equality: fmt.Sprint(i)}},
 					Filters: []*configv1.Filter{{Type: &configv1.Filter_Oidc{Oidc: o}}}})
 				fGal = append(fGal, "("+gal.S(o.CookieNamePrefix)+", "+gal.S(uris[k])+", "+gal.Z(abs)+", "+gal.Z(idle)+")")
 				fDescr = append(fDescr, map[string]any{"filter": i, "store": k, "cookie_prefix": o.CookieNamePrefix, "client_id": o.ClientId, "absolute_s": abs, "idle_s": idle,
-					"redis_server_uri": uris[k], "endpoints": map[bool]string{true: "discovered (configuration_uri ...?p=i)", false: "static"}[discovered]})
+					"redis_server_uri": uris[k], "proxy": i == (ci+round)%len(ks) && !discovered, "endpoints": map[bool]string{true: "discovered (configuration_uri ...?p=i)", false: "static"}[discovered]})
 			}
 			jctx, jcancel := context.WithCancel(ctx)
 			jwks := oidc.NewJWKSProvider(cfg, tlsPool)
@@ -209,16 +238,35 @@ func runC18(c *Ctx) {
 				mu.Unlock()
 				mu.Lock()
 				before := len(exchanges)
+				proxBefore := len(proxied)
 				mu.Unlock()
 				check(i, "/callback?code="+state+"&state="+state, sc[0]+"="+sid)
 				mu.Lock()
 				seenEx := append([]string(nil), exchanges[before:]...)
 				mu.Unlock()
+				mu.Lock()
+				viaProxy := append([]string(nil), proxied[proxBefore:]...)
+				mu.Unlock()
+				wantProxy := 0
+				if oidcs[i].GetProxyUri() != "" {
+					wantProxy = 1
+				}
+				nTok := 0
+				for _, x := range viaProxy {
+					if strings.HasPrefix(x, "/token") {
+						nTok++
+					}
+				}
+				if nTok != wantProxy {
+					c.Sum.GoFindings = append(c.Sum.GoFindings, Finding{Signature: "C18/foreign-outbound-settings",
+						What:   fmt.Sprintf("the code exchange of filter %d (proxy_uri %q) passed through the recording proxy %d time(s): a filter's outbound settings are not its own", i, oidcs[i].GetProxyUri(), nTok),
+						Replay: map[string]any{"filters": fDescr, "filter": i, "through_proxy": viaProxy}})
+				}
 				wantAuthz := w.idp.srv.URL + fmt.Sprintf("/auth%d", i)
 				wantEx := fmt.Sprintf("/token%d|Basic %s", i, b64std([]byte(fmt.Sprintf("client-%d:secret-%d", i, i))))
 				if !strings.HasPrefix(h["location"], wantAuthz+"?") || u.Query().Get("client_id") != fmt.Sprintf("client-%d", i) || len(seenEx) != 1 || seenEx[0] != wantEx {
 					c.Sum.GoFindings = append(c.Sum.GoFindings, Finding{Signature: "C18/foreign-endpoints-or-credentials",
-						What: fmt.Sprintf("the login at filter %d did not use that filter's own endpoints and credentials: redirected to %q (own authorization endpoint %q), token requests %q (own: %q)", i, h["location"], wantAuthz, seenEx, wantEx),
+						What:   fmt.Sprintf("the login at filter %d did not use that filter's own endpoints and credentials: redirected to %q (own authorization endpoint %q), token requests %q (own: %q)", i, h["location"], wantAuthz, seenEx, wantEx),
 						Replay: map[string]any{"filters": fDescr, "filter": i, "location": h["location"], "token_requests": seenEx, "expected_token_request": wantEx}})
 				}
 				ok, idt, _ := check(i, "/app", sc[0]+"="+sid)
